@@ -24,6 +24,8 @@ def run(ctx):
     T = ctx.thorough
     # ---- models
     ctx.tlc_mc("MC_PortUnion", "MC_PortUnion_big.cfg" if T else "MC_PortUnion.cfg", timeout=1500, workers=16 if T else 8)
+    if T:
+        ctx.tlc_mc("MC_PortUnion", "MC_PortUnion_big6.cfg", timeout=1500)
     for m in (("gap2", "noswap", "skip0") if T else ("gap2", "skip0")):
         ctx.tlc_mc("MC_PortUnion", "MC_PortUnion_mut_%s.cfg" % m, expect_violation=True, workers=4)
     ctx.tlc_mc("MC_UDPHop", "MC_UDPHop_big.cfg" if T else "MC_UDPHop.cfg", coverage=T, timeout=1500, workers=16 if T else 8)
@@ -32,7 +34,7 @@ def run(ctx):
         ctx.tlc_mc("MC_UDPHop", "MC_UDPHop_mut_%s.cfg" % m, expect_violation=True, workers=4)
     # ---- scenarios
     ctx.write_scenarios("portunion", ctx.tlc_gen("MC_PortUnion", "Gen_PortUnion.cfg", bfs=True))
-    ctx.write_scenarios("udphop", ctx.tlc_gen("MC_UDPHop", "Gen_UDPHop.cfg", num=6000 if T else 1200, depth=80))
+    ctx.write_scenarios("udphop", ctx.tlc_gen("MC_UDPHop", "Gen_UDPHop.cfg", num=4000 if T else 1200, depth=80))
     # ---- real code
     ctx.go_test("extras", "./transport/udphop/", "TestVerif_C19_", ["harness/extras/transport/udphop/c19_hop_test.go"], timeout=1500)
     ctx.validate("Prop_C19", sig=sig, distinct=distinct)
